@@ -111,6 +111,11 @@ class ModuleInfo:
                     base = base[:len(base) - st.level]
                     mod = ".".join(base + ([st.module] if st.module else []))
                 for a in st.names:
+                    if a.name == "*":
+                        if not hasattr(self, "star_imports"):
+                            self.star_imports = []
+                        self.star_imports.append(mod)
+                        continue
                     self.imports.setdefault(a.asname or a.name, (mod, a.name))
             elif isinstance(st, ast.Import):
                 for a in st.names:
@@ -250,6 +255,25 @@ def resolve_import(modinfo, name):
                 return "external", (mod, orig)
             nm = orig
             continue
+        # star imports (package __init__ files re-export their submodules)
+        found = None
+        for sm in getattr(mi, "star_imports", []):
+            if not sm.startswith("pandapipes"):
+                continue
+            try:
+                sub = get_module(sm)
+            except SourceError:
+                continue
+            if nm in sub.functions or nm in sub.classes or nm in sub.const_nodes or nm in sub.imports \
+                    or getattr(sub, "star_imports", None):
+                if (sub.name, nm) in seen:
+                    continue
+                r = resolve_import(sub, nm)
+                if r[0] != "unknown":
+                    found = r
+                    break
+        if found is not None:
+            return found
         return "unknown", (mi.name, nm)
 
 
@@ -298,7 +322,7 @@ def resolve_import_from(mod, name):
         # `from pandapipes.pf import x` where x is a submodule
         raise
     if name not in mi.functions and name not in mi.classes and name not in mi.const_nodes \
-            and name not in mi.imports:
+            and name not in mi.imports and not getattr(mi, "star_imports", None):
         # maybe a submodule
         try:
             get_module(mod + "." + name)
